@@ -295,6 +295,22 @@ def check_constructed(x, tag, seen, keep, fails, labs):
         if kind == "rechunk-same":
             labs.append("rechunk-same-chunks")
         check_node(node, f"constructed[{tag}:{name}]", fails, labs, expect_zero=kind, prefix="constructed:")
+    if len(chunks) == 2 and x.dtype.kind in "iuf" and not any(_isnan(c) for ax in chunks for c in ax):
+        # a raw blockwise contraction (concatenate=True): every operand is gathered along the contracted index
+        # AND replicated over the output blocks of the other one - the shape tensordot/matmul never build
+        import dask_array as da
+
+        from vf import funcs
+
+        try:
+            node = da.blockwise(funcs.contract_blocks, "ij", x, "ik", x.T, "kj", concatenate=True, dtype="f8").expr
+        except Exception:
+            labs.append("constructed-unavailable:blockwise-contraction")
+        else:
+            keep.append(node)
+            seen.add(id(node))
+            labs.append("blockwise-contraction")
+            check_node(node, f"constructed[{tag}:blockwise-contraction]", fails, labs, prefix="constructed:")
 
 
 def _cond(x, k):
